@@ -64,13 +64,16 @@ func (c32Engine) Generate(seed uint64, tier string) *simrun.Case {
 				}
 				p += "/" + s
 			}
-			switch r.Intn(8) {
+			switch r.Intn(10) {
 			case 0:
 				p += "/"
 			case 1:
 				p += "/*"
 			case 2:
 				p = "/"
+			case 3, 4:
+				// a glob variable takes all remaining segments (the server's own /assets/{{item...}})
+				p += "/{{rest...}}"
 			}
 			m := c32Methods[r.Intn(len(c32Methods))]
 			if seen[p+" "+m] {
@@ -96,7 +99,12 @@ func c32Requests(patterns [][2]string, seed uint64, n int) [][2]string {
 		p := patterns[r.Intn(len(patterns))]
 		parts := strings.Split(p[0], "/")
 		for j, s := range parts {
-			if strings.HasPrefix(s, "{{") {
+			if strings.HasPrefix(s, "{{") && strings.HasSuffix(s, "...}}") {
+				parts[j] = vals[r.Intn(len(vals))]
+				for k := r.Intn(3); k > 0; k-- {
+					parts[j] += "/" + vals[r.Intn(len(vals))]
+				}
+			} else if strings.HasPrefix(s, "{{") {
 				parts[j] = vals[r.Intn(len(vals))]
 			}
 			if s == "*" {
